@@ -1,20 +1,68 @@
 PROP = {
-    "lean_modules": ["GunYu.Model.Frontier"],
-    "audit_namespaces": [],
-    "required_theorems": [],
-    "expected_facts": {},
+    "lean_modules": ["GunYu.Props.C14"],
+    "audit_namespaces": ["GunYu.Props.C14"],
+    "required_theorems": [
+        "GunYu.Props.C14.rebuild_contiguous",
+        "GunYu.Props.C14.rebuild_survivors",
+        "GunYu.Props.C14.rebuild_gap_is_error",
+        "GunYu.Props.C14.init_inv",
+        "GunYu.Props.C14.each_request_preserves",
+        "GunYu.Props.C14.resume_is_committed_prefix",
+        "GunYu.Props.C14.coordinator_frontier_is_committed_prefix",
+        "GunYu.Props.C14.sync_mode_exact",
+        "GunYu.Props.C14.resume_monotone",
+    ],
+    "gens": ["c17"],
+    # flush policy constants of the coordinator as the model has them (Model/Frontier.lean
+    # flushUnitThreshold / flushIntervalNs)
+    "expected_facts": {
+        "c14_flush_consts": {"bisyncFrontierFlushInterval": "100 * time.Millisecond",
+                             "bisyncFrontierFlushUnitThreshold": "512"},
+    },
     "harness": [
         {"name": "C14rebuild", "pkg": "./pkg/redis/checkpoint/", "test": "TestVerifC14Rebuild"},
         {"name": "C14", "pkg": "./syncer/", "test": "TestVerifC14"},
     ],
     "driver": "drv_C14",
-    "rule": "TODO",
-    "trusted": [],
-    "assumptions": [],
+    "rule": "c14r: corpus; ALL 64 subsets (two orders each) of a 6-record journal under no snapshot / snapshot seq 0 / seq 2; "
+            "generated snapshot (nil, seq -3..12, versions) + 0-9 records with gaps (also right after the snapshot), duplicate "
+            "sequence numbers with other mtime/offset/run id, seq <= 0, records the snapshot already covers, nil entries, shuffled: "
+            "real RebuildBisyncFrontier vs Lean `rebuild`; oracle: never before the snapshot, no missing number passed, offset of a "
+            "record with that number, does not stop early, arguments not mutated. "
+            "c14s: corpus (D12 / D21 witnesses); generated namespaces on the target double (frontier snapshot present / absent / seq 0 / "
+            "foreign run id, journal 0-7 units after it with gaps, records without index entry, index entries without record, "
+            "leftovers the snapshot covers, foreign run ids, root checkpoint absent / older / newer / in DB 1-3, latest record), "
+            "modes parallel / pipeline / sync: real RedisOutput.bisyncStartPoint of a FRESH process over the real conn.RedisConn; every "
+            "write request is a crash point (vfdoubles.Replay of the request prefix, fresh process starts again); chains of up to 3 "
+            "further restarts from a random crash point. Result, requests and the start point after every prefix vs Lean "
+            "`startFrontier`/`startLatest`. Monitors: selected seq never passes a number missing from the visible journal; a restart "
+            "after any prefix never resumes before the previous start / never fails. "
+            "c14c: real bisyncFrontierCoordinator under testing/synctest virtual time: 1-14 units reported in a random permutation "
+            "(bounded and unbounded displacement), double / stale reports, flush ticks, gaps of 0..250 ms around the 100 ms flush "
+            "interval: in-memory frontier, pending, advanced and the requests after every event vs Lean `coordOnCommitted`/`coordFlush`; "
+            "monitors: frontier = contiguous reported prefix, a journal record is deleted only after a frontier covering it was saved. "
+            "distinct_nontrivial = distinct (mode, #requests, journal size, index size) with clean-up / (#events, #requests) / advancing rebuilds",
+    "trusted": ["target double harness/overlay/pkg/vfdoubles/target.go (HSET/HGETALL/DEL/ZADD/ZREM/ZRANGEBYSCORE/INFO keyspace/SELECT semantics of a standalone Redis)",
+                "a unit's data, journal record and index entry are one MULTI/EXEC (dispatchBisyncUnit queues them on a TxnBatcher; C13/C18 check the batch) - modelled as the single request `commit`"],
+    "assumptions": [
+        "standalone target: one recovery slot (bisyncRecoverySlots() = [0]), every unit forced to slot 0; cluster mode (16384 slot tags, one index per slot, lanes on several nodes) is covered by the theorems about `rebuild` and the coordinator only",
+        "one numbering of units per namespace (World.e): a root checkpoint NEWER than the frontier (after a finished full sync) restarts the numbering at 0 - the start-point model and the correspondence include that override, the invariant theorem `resume_is_committed_prefix` is about runs inside one numbering (root = e 0)",
+        "fresh process at every start (the in-memory frontier-miss fast path of bisyncFrontierMissFastPath is empty)",
+        "RDB phase units (bisync_rdb.go, `rdb:` records) are outside the property (incremental replay)",
+        "a start that finds a journal gap right after an absent / seq-0 snapshot returns an error (modelled as `gap`, theorem rebuild_gap_is_error); parallel lanes can produce that state before the first flush - reported as observation",
+    ],
+    "partial": [],
 }
 
 MANIFEST = {
-    "text": "TODO",
-    "note": "TODO",
-    "technique": "Lean 4 proof + differential correspondence over crash prefixes",
+    "text": "Lean theorems: RebuildBisyncFrontier never passes a missing sequence number for ALL snapshots and record lists (any surviving subset, duplicates, order); "
+            "an invariant of the replay transition system (unit transactions in any lane order, completion reports in any order, flush ticks at any time, "
+            "each queued frontier-save / journal DEL / ZREM / recovery request applied one at a time, crash and restart anywhere) proves that at EVERY crash point "
+            "the start point is the end of a committed unit with every earlier unit committed; sync mode resumes exactly after the last committed unit; "
+            "any number of stop/start cycles, each cut after any number of recovery requests, never moves the resume point backwards. "
+            "Tied to the code by differential correspondence of the real RebuildBisyncFrontier, bisyncFrontierCoordinator (virtual time) and "
+            "bisyncStartPoint + clean-up against the target double with every request prefix replayed, plus independent monitors. "
+            "Two defects found and fixed (D12: recovery deleted journal records without saving the rebuilt frontier; D21: recovery keys read in the database GetCheckpoint visited last).",
+    "note": "trusted: Lean kernel (propext, Classical.choice, Quot.sound only), target double, extractor, harness; models hand-written and tied by correspondence; flush constants compared with the source each run",
+    "technique": "Lean 4 proof (fold invariants, transition-system invariant by induction over step lists) + differential correspondence over every request prefix (crash points) under virtual time",
 }
